@@ -65,6 +65,7 @@ def rule_model_round_trip(chk):
             for p_ in names:
                 tok = ('data', name, p_, bool(real))
                 made[tok] = Data(tok, (nreal if real else ntotal) * strides.get(p_, 1))
+                made[tok].ctype = props[p_]
                 res[p_] = made[tok]
             return res
         return EM.mock(name=name, properties=dict((p_, carray(t_, (name, p_))) for p_, t_ in props.items()), constants=dict((c_, carray('double', (name, c_))) for c_ in consts),
@@ -204,6 +205,8 @@ def main(chk):
     c06.rule_initialize_model(chk)
     # the readers hand the recorded type to add_property: the array made for it has that type whatever the element type of the data read (rule shared with C06)
     c06.rule_typed_creation(chk, M.find_class(M.cy(PA), 'ParticleArray'))
+    # ... and the default that was saved (the readers pass it for every property, the built-in tag / pid / gid included) is the one the re-created property gets
+    c06.rule_default_kept(chk, M.find_class(M.cy(PA), 'ParticleArray'))
     chk.unit('functions', ['output.dump', 'output.load', 'Output.dump', 'NumpyOutput._dump/_load', 'HDFOutput._dump/_load and helpers', 'utils.get_particles_info',
                            'ParticleArray.get_property_arrays', 'ParticleArray.get_number_of_particles'])
     chk.assume('library facts built into the I/O model (verif_static/iomodel.py): h5py groups/datasets/attrs behave like dictionaries, a dataset keeps the data it was created with, '
